@@ -357,8 +357,8 @@ impl Sut {
 		self.db().get(c, k)
 	}
 	pub fn close(&mut self) {
-		// F7 guard: never drop with more dirty logs than the limit.
-		if self.dirty >= 3 {
+		// (historic F7 guard, harmless now that the drop hang is fixed)
+		if self.dirty >= 3 && self.db.is_some() {
 			let _ = self.clean();
 		}
 		self.db = None;
